@@ -121,8 +121,11 @@ static std::string doEngine(const std::vector<std::string>& a) {
         return "werr " + exName(e);
     }
     size_t n = (size_t)out.curPos();
+    // "c<N>" in the third field: the loading side gets only the first N bytes of the stream (truncated stream)
+    if (a[2].size() > 1 && a[2][0] == 'c') { size_t cut = (size_t)atol(a[2].c_str() + 1); if (cut < n) n = cut; }
     const XMLByte* raw = out.getRawBuffer();
     std::vector<XMLByte> bytes(raw, raw + n);
+    bytes.push_back(0);      // keep data() valid for an empty stream
     result = "ok " + showHex(bytes.data(), n, 2) + " |";
     try {
         BinMemInputStream in(bytes.data(), n, BinMemInputStream::BufOpt_Reference, mm);
